@@ -20,7 +20,8 @@ CONSTANTS
   DEV_IgnoreRelToSrc,   \* in a dereferenced directory rules see the path relative to the external dir (cand. 9)
   DEV_NestedDstFsPath,  \* a dereferenced directory inside a dereferenced directory is named by its filesystem path (cand. 19)
   DEV_LinkValidatedOnDisk, \* inside a dereferenced directory a link is validated at its filesystem path, not its slug position
-  DEV_DerefSpecial      \* a link to a fifo is dereferenced like a file: os.Open blocks (cand. 11)
+  DEV_DerefSpecial,     \* a link to a fifo is dereferenced like a file: os.Open blocks (cand. 11)
+  DEV_DirEntryByOwnPath \* a directory's own entry is decided by its slash-less path alone (a directory re-included by "!dir/" loses its entry)
 
 DerefDepth == 3         \* nested walk frames before the model says "diverge"
 ResolveFuel == 4        \* link chain length before resolveExternalLink "diverges"
@@ -76,8 +77,9 @@ WalkNode(ctx, fr, lex, depth, isRoot) ==
       s == PChars(irel)
       x1 == IF ctx.ign THEN Excludes(ctx.rs, s) ELSE [ex |-> FALSE, dom |-> FALSE]
       x2 == IF ctx.ign /\ node.k = "d" THEN Excludes(ctx.rs, s \o <<"/">>) ELSE [ex |-> FALSE, dom |-> FALSE]
-      skipSelf == relSrc = <<>> \/ x1.ex \/ x2.ex \/ arel = <<>>
-      prune == relSrc # <<>> /\ (DEV_IgnoreRelToSrc \/ arel # <<>>) /\ ~x1.ex /\ x2.ex /\ x2.dom
+      xd == IF ctx.ign /\ node.k = "d" /\ ~DEV_DirEntryByOwnPath THEN ExcludesDir(ctx.rs, s) ELSE x1      \* the directory's own entry
+      skipSelf == relSrc = <<>> \/ (IF node.k = "d" THEN xd.ex ELSE x1.ex) \/ x2.ex \/ arel = <<>>
+      prune == relSrc # <<>> /\ (DEV_IgnoreRelToSrc \/ arel # <<>>) /\ (DEV_DirEntryByOwnPath => ~x1.ex) /\ x2.ex /\ x2.dom
       here ==
         IF skipSelf THEN [out |-> <<>>, st |-> "ok", walk |-> ~prune]
         ELSE IF node.k = "d" THEN [out |-> <<E("d", Append(arel, ""), node.m, RoundT(node.t), 0, <<>>)>>, st |-> "ok", walk |-> TRUE]
